@@ -156,6 +156,9 @@ def aggregate_unit(tier):
     u.add("aggregate|types", "aggregate<types<T...>> is aggregate<T...>", "static_assert(std::is_base_of_v<aggregate<L<1>, L<2>>, aggregate<types<L<1>, L<2>>>>);")
     u.add("aggregate|tuple", "small aggregate derives from std::tuple of its elements (each element constructed once)",
           "static_assert(std::is_base_of_v<std::tuple<L<1>, L<2>, L<3>>, aggregate<L<1>, L<2>, L<3>>>);")
+    u.raw("template<class...> struct Wrap1 {};")
+    u.add("aggregate|single-template-element", "an aggregate of ONE element that is itself a template instance (one registration object add_definition<C>) holds that element, it does not unwrap it",
+          "static_assert(std::is_base_of_v<std::tuple<Wrap1<int, char>>, aggregate<Wrap1<int, char>>> && std::is_base_of_v<std::tuple<std::tuple<int>>, aggregate<std::tuple<int>>>);")
     u.add("aggregate|split", "a 513-element aggregate is split into halves of 256 and 257 elements in order",
           "static_assert(std::is_base_of_v<std::tuple<agg_type<256>, boost::mp11::mp_apply<aggregate, boost::mp11::mp_drop_c<boost::mp11::mp_rename<agg_type<513>, types>, 256>>>, agg_type<513>>);")
     return u
